@@ -54,9 +54,8 @@ func goTyX(e ast.Expr) gty {
 	case *ast.Ellipsis:
 		return "[]" + goTyX(x.Elt) // a variadic parameter is a slice
 	case *ast.ArrayType:
-		if x.Len == nil {
-			return "[]" + goTyX(x.Elt)
-		}
+		// a fixed-size array is a list of that length (`var a [8]byte` makes it; nothing changes its length)
+		return "[]" + goTyX(x.Elt)
 	case *ast.Ident:
 		if x.Name == "string" {
 			return "str"
@@ -254,13 +253,33 @@ func tupleTyX(ts []gty) string {
 func partial(e ast.Node) bool {
 	found := false
 	ast.Inspect(e, func(n ast.Node) bool {
-		switch n.(type) {
-		case *ast.IndexExpr, *ast.SliceExpr:
+		switch x := n.(type) {
+		case *ast.IndexExpr:
 			found = true
+		case *ast.SliceExpr:
+			if x.Low != nil || x.High != nil {
+				found = true
+			}
+		case *ast.CallExpr:
+			if isLEUint64(x) {
+				found = true
+			}
 		}
 		return !found
 	})
 	return found
+}
+
+// binary.LittleEndian.Uint64(b): panics when len(b) < 8
+func isLEUint64(c *ast.CallExpr) bool {
+	if sel, ok := c.Fun.(*ast.SelectorExpr); ok && sel.Sel.Name == "Uint64" {
+		if in, ok := sel.X.(*ast.SelectorExpr); ok && in.Sel.Name == "LittleEndian" {
+			if id, ok := in.X.(*ast.Ident); ok && id.Name == "binary" {
+				return true
+			}
+		}
+	}
+	return false
 }
 
 // pre-binds for every index/slice expression in e (innermost first); afterwards t.expr sees them as names
@@ -307,6 +326,9 @@ func (m *imp) hoistIdx(e ast.Expr) []string {
 			if x.Max != nil || (x.Low != nil && x.High != nil) {
 				panic("translate: unsupported slice expression")
 			}
+			if x.Low == nil && x.High == nil {
+				return // x[:] is x (slices are values here)
+			}
 			xs, xty := m.expr(x.X, "")
 			tmp := m.fresh("s")
 			if x.High != nil {
@@ -321,6 +343,16 @@ func (m *imp) hoistIdx(e ast.Expr) []string {
 			m.idxTmp[x] = tmp
 			m.idxTy[x] = xty
 			m.t.env[tmp] = xty
+			return
+		}
+		if call, ok := n.(*ast.CallExpr); ok && isLEUint64(call) {
+			walk(call.Args[0])
+			a, _ := m.expr(call.Args[0], "[]u8")
+			tmp := m.fresh("e")
+			pre = append(pre, fmt.Sprintf("(Go.leU64 %s) >>= fun %s =>", a, tmp))
+			m.idxTmp[call] = tmp
+			m.idxTy[call] = "u64"
+			m.t.env[tmp] = "u64"
 			return
 		}
 		ast.Inspect(n, func(c ast.Node) bool {
@@ -377,6 +409,9 @@ func (m *imp) expr(e ast.Expr, want gty) (string, gty) {
 		if tmp, ok := m.idxTmp[e]; ok {
 			return tmp, m.idxTy[e]
 		}
+		if sl, ok := e.(*ast.SliceExpr); ok && sl.Low == nil && sl.High == nil && sl.Max == nil {
+			return m.expr(sl.X, want)
+		}
 		panic("translate: index expression that was not hoisted: " + exprText(m.p.fset, e))
 	case *ast.Ident:
 		if ty, ok := m.t.env[x.Name]; ok {
@@ -431,6 +466,9 @@ func (m *imp) expr(e ast.Expr, want gty) (string, gty) {
 	case *ast.CallExpr:
 		if tmp, ok := m.callTmp[x]; ok {
 			return tmp, m.t.env[tmp]
+		}
+		if tmp, ok := m.idxTmp[x]; ok {
+			return tmp, m.idxTy[x]
 		}
 		// []T(nil): the empty slice
 		if at, ok := x.Fun.(*ast.ArrayType); ok && at.Len == nil && len(x.Args) == 1 && exprText(m.p.fset, x.Args[0]) == "nil" {
@@ -898,9 +936,17 @@ func (m *imp) block(list []ast.Stmt, c ictx) string {
 				panic("translate: var with initialiser")
 			}
 			ty := goTyX(vs.Type)
+			zero := m.zero(ty)
+			if at, ok := vs.Type.(*ast.ArrayType); ok && at.Len != nil {
+				ln, ok := m.t.constVal(at.Len)
+				if !ok {
+					panic("translate: array length is not a constant")
+				}
+				zero = fmt.Sprintf("(List.replicate %s %s)", ln.String(), m.zero(gty(string(ty)[2:])))
+			}
 			for _, n := range vs.Names {
 				m.t.env[n.Name] = ty
-				lets = append(lets, fmt.Sprintf("let %s : %s := %s", n.Name, leanTyX(ty), m.zero(ty)))
+				lets = append(lets, fmt.Sprintf("let %s : %s := %s", n.Name, leanTyX(ty), zero))
 			}
 		}
 		return strings.Join(lets, "\n  ") + "\n  " + rest()
@@ -1027,6 +1073,24 @@ func (m *imp) assign(lhs ast.Expr, rhs ast.Expr, tok token.Token, rest func() st
 				return m.bindTuple(names, code, rest())
 			}
 		}
+	}
+	// n := copy(dst[:], src): dst gets the first min(len(dst), len(src)) elements of src
+	if call, ok := rhs.(*ast.CallExpr); ok && exprText(m.p.fset, call.Fun) == "copy" && len(call.Args) == 2 {
+		id, okL := lhs.(*ast.Ident)
+		sl, okS := call.Args[0].(*ast.SliceExpr)
+		if okL && okS && sl.Low == nil && sl.High == nil && !partial(call.Args[1]) {
+			if dst, ok := sl.X.(*ast.Ident); ok {
+				d, dty := m.expr(dst, "")
+				src, sty := m.expr(call.Args[1], dty)
+				if dty != sty || !strings.HasPrefix(string(dty), "[]") {
+					panic("translate: copy between different types")
+				}
+				c := m.fresh("c")
+				m.t.env[id.Name] = "i64"
+				return fmt.Sprintf("let %s := Go.copyInto %s %s\n  let %s : %s := %s.1\n  let %s : Int64 := %s.2\n  %s", c, d, src, d, leanTyX(dty), c, id.Name, c, rest())
+			}
+		}
+		panic("translate(imp): unsupported copy")
 	}
 	pre := append(m.hoistCalls(rhs), m.hoistIdx(rhs)...)
 	join := func(s string) string {
@@ -1583,6 +1647,47 @@ func (t *trans) impFunction(key string, sigs map[string]*isig) string {
 	}
 	out += fmt.Sprintf("/-- %s (%s): %s -/\ndef %s %s : Go.M (%s) :=\n  %s\n", key, t.p.fset.Position(d.Pos()),
 		impDoc(sg, m), sg.lean, strings.Join(params, " "), tupleTyX(resTys), body)
+	return out
+}
+
+// impFragment translates some statements of a function (chosen by `pick`) as a function of the variables
+// `params` (name, type) that returns the variable `result`
+func (t *trans) impFragment(key, leanName string, pick func(i int, s ast.Stmt) bool, params [][2]string, result string, resultTy gty, doc string) string {
+	d, ok := t.p.funcs[key]
+	if !ok {
+		panic("translate: no function " + key)
+	}
+	fxMode = false
+	m := &imp{t: t, p: t.p, key: leanName, sigs: map[string]*isig{}, objs: map[string]string{}, callTmp: map[*ast.CallExpr]string{}, idxTmp: map[ast.Node]string{}, idxTy: map[ast.Node]gty{}, pureSigs: t.pureMethodFields}
+	t.env = map[string]gty{}
+	t.fields = map[string]gty{}
+	t.recv = ""
+	t.hoisted = map[*ast.CallExpr]string{}
+	var ps []string
+	for _, p := range params {
+		t.env[p[0]] = gty(p[1])
+		ps = append(ps, fmt.Sprintf("(%s : %s)", p[0], leanTyX(gty(p[1]))))
+	}
+	var stmts []ast.Stmt
+	for i, s := range d.Body.List {
+		if pick(i, s) {
+			stmts = append(stmts, s)
+		}
+	}
+	if len(stmts) == 0 {
+		panic("translate: no statements picked in " + key)
+	}
+	stmts = append(stmts, &ast.ReturnStmt{Results: []ast.Expr{ast.NewIdent(result)}})
+	m.results = []gty{resultTy}
+	body := m.block(stmts, ictx{tail: func() string { return m.ret(ictx{}, nil) }})
+	if m.fuel {
+		ps = append(ps, "(fuel : Nat)")
+	}
+	out := strings.Join(m.aux, "\n")
+	if out != "" {
+		out += "\n"
+	}
+	out += fmt.Sprintf("/-- %s (%s): %s -/\ndef %s %s : Go.M (%s) :=\n  %s\n", key, t.p.fset.Position(stmts[0].Pos()), doc, leanName, strings.Join(ps, " "), leanTyX(resultTy), body)
 	return out
 }
 
